@@ -19,6 +19,24 @@ def flux(s, rad_T):
     en = en[:-1]
     out['energy'] = float(np.max(np.abs(en - en[0])) / abs(en[0]))
     return out
+def api_flux(s):
+    # mass flux rho u and total momentum flux rho u^2 + p + E_r / 3 of the RETURNED fields (public call at t = 0) on 1500 points
+    # across the whole profile; "_in" leaves out the two widest knot intervals (the far-field end intervals of the profile grid)
+    xi = np.asarray(s.x, dtype=float); x = -xi[::-1]
+    pts = np.linspace(x.min(), x.max(), 1501)[1:-1]
+    sol = s(pts, 0.0)
+    rho = np.asarray(sol['density']); u = np.asarray(sol['velocity']); p = np.asarray(sol['pressure']); er = np.asarray(sol['rade'])
+    m = rho * u; mom = rho * u * u + p + er / 3.
+    dx = np.diff(x); idx = np.argsort(dx)[-2:]
+    mask = np.ones(len(pts), bool)
+    for g in idx:
+        mask &= ~((pts > x[g]) & (pts < x[g + 1]))
+    f = lambda a, mk: float(np.ptp(a[mk]) / abs(a[0])) if mk.any() else 0.0
+    full = np.ones(len(pts), bool)
+    worst = int(np.argmax(np.abs(m - m[0])))
+    return {'mass_all': f(m, full), 'mass_in': f(m, mask), 'momentum_all': f(mom, full), 'momentum_in': f(mom, mask),
+            'end_intervals': [[float(x[g]), float(x[g + 1])] for g in idx], 'worst_point': float(pts[worst]),
+            'mass_flux_there_over_upstream': float(m[worst] / m[-1])}
 def main(payload):
     out = []
     for c in payload:
@@ -44,6 +62,7 @@ def main(payload):
             r['history_defect'] = max(d_same, d_fresh * 1e-3)
             r['flux'] = flux(s, s.Tm if c['kind'] == 'ED' else s.Tr)
             r['upstream'] = {'T': float(s.Tm[0]), 'rho': float(s.Density[0])}
+            r['api_flux'] = api_flux(s)
             out.append(r)
         except Exception as ex:
             out.append({'error': type(ex).__name__ + ': ' + str(ex)[:200]})
@@ -148,4 +167,35 @@ def oracle(rng, tier, reasons):
                           'why': 'the same instance called at t, 2.5 t and t again does not reproduce a fresh instance at t'})
         if r['wave_defect'] > 1e-9:
             fails.append({'solver': c['kind'] + '_Solver', 'params': c['params'], 't': c['t'], 'wave_defect': r['wave_defect']})
+        fails += api_flux_fails(c, r)
     return fails
+
+
+API_TOL = 1e-5
+
+
+def api_flux_fails(c, r):
+    """fluxes of the RETURNED fields (public call), not of the internal knots. Known finding ed-embedded-shock-ramp: ED_Solver represents
+    its embedded hydrodynamic shock by the last integrated knot and the far-downstream end knot, so the public call returns a linear
+    ramp over the whole downstream end interval; a failure confined to the end intervals of an ED profile is that finding, anything
+    else is reported."""
+    a = r.get('api_flux')
+    if not a:
+        return []
+    out = []
+    for k in ('mass', 'momentum'):
+        if a[k + '_in'] > API_TOL or (a[k + '_all'] > API_TOL and c['kind'] != 'ED'):
+            out.append({'solver': c['kind'] + '_Solver', 'params': c['params'], 'flux': k + ' flux of the returned fields',
+                        'relative_variation_inside': a[k + '_in'], 'relative_variation_whole_profile': a[k + '_all'], 'worst_point': a['worst_point']})
+    return out
+
+
+def replay_ed_ramp():
+    """known finding ed-embedded-shock-ramp, replayed on the real code: ED_Solver(M0 = 1.5), public call at t = 0"""
+    c = {'kind': 'ED', 'params': {'M0': 1.5}, 't': 1e-9, 'xs': [-0.01, 0.0, 0.01]}
+    r = H.run_real(REAL, [dict(c, interp_cases=[])], timeout=900)[0]
+    a = r.get('api_flux', {})
+    if a.get('mass_all', 0) > API_TOL and a.get('mass_in', 1) <= API_TOL:
+        return {'solver': 'ED_Solver', 'params': c['params'], 'mass_flux_relative_variation_of_returned_fields': a['mass_all'],
+                'inside_the_integrated_part': a['mass_in'], 'worst_point': a['worst_point'], 'end_intervals': a['end_intervals']}
+    return None
